@@ -154,21 +154,40 @@ def slice_class(op, n):
 def run_history(xs, ops):
     """-> None, or (sig, msg, k) where k = index of the diverging op (len(ops) = final check)."""
     ll = LazyList(iter(list(xs)))
+    cp = None
     for k, op in enumerate(ops):
         op = tuple(op)
-        r = observe(ll, xs, op)
+        if op[0] == "mkcopy":
+            cp = deep_copy(ll)
+            continue
+        if op[0] == "c":
+            if cp is None:
+                continue
+            r = observe(cp, xs, tuple(op[1:]))
+        else:
+            r = observe(ll, xs, op)
         if r is None:
             continue
         got, want = r
         if got != want:
+            on_copy = op[0] == "c"
+            if on_copy:
+                op = tuple(op[1:])
             kind = op[0]
             if kind == "slice":
                 kind = "slice-" + slice_class(op, len(xs))
+            if on_copy:
+                kind = "copy." + kind
             what = "raises" if isinstance(got, str) and got.startswith("raises:") else "value"
-            prior = "after-" + (ops[k - 1][0] if k else "nothing")
+            prior = "after-" + (str(ops[k - 1][0]) if k else "nothing")
             return (f"C13:{kind}:{what}", f"xs={xs!r} history={list(map(list, ops[:k + 1]))!r}: observation {list(op)!r} "
                     f"returned {got!r}, the list gives {want!r} ({prior})", k)
     try:
+        if cp is not None:
+            finalc = norm(cp.listify())
+            if finalc != norm(xs) or norm(list(cp)) != norm(xs):
+                return ("C13:copy-denotation-changed", f"xs={xs!r} history={list(map(list, ops))!r}: the copy now "
+                        f"enumerates {finalc!r}", len(ops))
         final = norm(ll.listify())
         final2 = norm(list(ll))
     except Exception as e:  # noqa: BLE001
@@ -180,8 +199,12 @@ def run_history(xs, ops):
     return None
 
 
+def _base(o):
+    return o[1] if o[0] == "c" else o[0]
+
+
 def _nontrivial(ops):
-    return len(ops) >= 2 and any(o[0] in FORCING_PARTIAL for o in ops[:-1])
+    return len(ops) >= 2 and any(_base(o) in FORCING_PARTIAL for o in ops[:-1])
 
 
 def _jsonable_xs(xs):
@@ -207,9 +230,38 @@ def _shard_exh(rec, arg):
         rec.sample({"xs": [0, 1, 2], "history": [["idx", 1], ["neg", 1], ["len"]]})
 
 
+INTERLEAVE_OPS = [
+    ("idx", 0), ("idx", 1), ("partial", 1), ("len",), ("mkcopy",),
+    ("c", "idx", 0), ("c", "idx", 1), ("c", "partial", 1), ("c", "partial", 2), ("c", "listify"),
+]
+
+
+def _shard_interleave(rec, arg):
+    shard, nshards, H = arg
+    lists = [[], [0], [0, 1], [0, 1, 2], [1, 1, 0]]
+    idx = 0
+    for xs in lists:
+        for h in range(2, H + 1):
+            for ops in itertools.product(INTERLEAVE_OPS, repeat=h):
+                idx += 1
+                if idx % nshards != shard:
+                    continue
+                if ("mkcopy",) not in ops:
+                    continue
+                r = run_history(xs, ops)
+                rec.case(nontrivial=_nontrivial(ops), cls=f"exh-interleave-len{h}")
+                if r:
+                    rec.fail(r[0], {"xs": xs, "ops": [list(o) for o in ops[: r[2] + 1]]}, r[1])
+    if shard == 0:
+        rec.sample({"xs": [0, 1, 2], "history": [["idx", 0], ["mkcopy"], ["c", "idx", 0], ["idx", 1], ["c", "idx", 1]]})
+
+
 # ---- state machine --------------------------------------------------------
 ELEM = st.one_of(st.integers(-3, 9), st.integers(0, 2), st.text("ab", max_size=2),
                  st.lists(st.integers(0, 3), max_size=2))
+
+
+H = st.sampled_from([0, 0, 1])
 
 
 def make_machine(rec):
@@ -219,6 +271,7 @@ def make_machine(rec):
             self.xs = []
             self.ops = []
             self.ll = LazyList(iter([]))
+            self.cp = None
             self.dead = False
 
         @initialize(xs=st.lists(ELEM, max_size=8))
@@ -226,11 +279,17 @@ def make_machine(rec):
             self.xs = xs
             self.ll = LazyList(iter(list(xs)))
 
-        def _step(self, op):
+        def _step(self, op, h=0):
             if self.dead:
                 return
-            self.ops.append(op)
-            r = observe(self.ll, self.xs, op)
+            if h and self.cp is None:
+                h = 0
+            if h:
+                self.ops.append(("c",) + tuple(op))
+                r = observe(self.cp, self.xs, op)
+            else:
+                self.ops.append(op)
+                r = observe(self.ll, self.xs, op)
             if r is None:
                 return
             got, want = r
@@ -243,38 +302,45 @@ def make_machine(rec):
                     rec.fail("C13:not-reproducible", {"xs": self.xs, "ops": [list(o) for o in self.ops]},
                              f"divergence {got!r} vs {want!r} not reproduced on a fresh lazy list")
 
-        @rule(i=st.integers(0, 12))
-        def idx(self, i):
-            self._step(("idx", i))
+        @rule()
+        def mkcopy(self):
+            if self.dead:
+                return
+            self.ops.append(("mkcopy",))
+            self.cp = deep_copy(self.ll)
 
-        @rule(k=st.integers(-2, 3))
-        def idx_rel(self, k):
-            self._step(("idx_rel", k))
+        @rule(i=st.integers(0, 12), h=H)
+        def idx(self, i, h):
+            self._step(("idx", i), h)
 
-        @rule(k=st.integers(1, 3))
-        def neg(self, k):
-            self._step(("neg", k))
+        @rule(k=st.integers(-2, 3), h=H)
+        def idx_rel(self, k, h):
+            self._step(("idx_rel", k), h)
+
+        @rule(k=st.integers(1, 3), h=H)
+        def neg(self, k, h):
+            self._step(("neg", k), h)
 
         @rule(a=st.one_of(st.none(), st.integers(-9, 10)), b=st.one_of(st.none(), st.integers(-9, 10)),
-              c=st.one_of(st.none(), st.integers(1, 3), st.just(-1)))
-        def slc(self, a, b, c):
-            self._step(("slice", a, b, c))
+              c=st.one_of(st.none(), st.integers(1, 3), st.just(-1)), h=H)
+        def slc(self, a, b, c, h):
+            self._step(("slice", a, b, c), h)
 
-        @rule()
-        def length(self):
-            self._step(("len",))
+        @rule(h=H)
+        def length(self, h):
+            self._step(("len",), h)
 
-        @rule()
-        def iterate(self):
-            self._step(("iter",))
+        @rule(h=H)
+        def iterate(self, h):
+            self._step(("iter",), h)
 
-        @rule(k=st.integers(0, 5))
-        def partial(self, k):
-            self._step(("partial", k))
+        @rule(k=st.integers(0, 5), h=H)
+        def partial(self, k, h):
+            self._step(("partial", k), h)
 
-        @rule()
-        def truth(self):
-            self._step(("bool",))
+        @rule(h=H)
+        def truth(self, h):
+            self._step(("bool",), h)
 
         @rule(v=st.one_of(ELEM, st.just(7)))
         def contains(self, v):
@@ -300,9 +366,9 @@ def make_machine(rec):
         def has_ind(self, k, rel):
             self._step(("has_ind", k, rel))
 
-        @rule()
-        def listify(self):
-            self._step(("listify",))
+        @rule(h=H)
+        def listify(self, h):
+            self._step(("listify",), h)
 
         def teardown(self):
             ops = [tuple(o) for o in self.ops]
@@ -310,6 +376,8 @@ def make_machine(rec):
             for o in ops:
                 if o[0] == "slice":
                     cls.append("sm-slice-" + slice_class(o, len(self.xs)))
+                if o[0] == "c":
+                    cls.append("sm-observes-copy")
             rec.case(key=(repr(self.xs), repr(ops)), nontrivial=_nontrivial(ops), cls=cls)
             if not self.dead:
                 res = run_history(self.xs, ops)
@@ -335,6 +403,9 @@ def run(rec, tier, seed):
     ns = campaign.NCPU * (1 if quick else 8)
     campaign.parallel(rec, _shard_exh, [(s, ns, 3, H) for s in range(ns)])
     rec.exhaustive.append(f"lists of length 0..3 over {{0,1,2}} x all histories of length<={H} over {len(FIXED_OPS)} operations")
+    HI = 5 if quick else 6
+    campaign.parallel(rec, _shard_interleave, [(s, ns, HI) for s in range(ns)])
+    rec.exhaustive.append(f"copy/original interleavings: 5 lists x all histories of length<={HI} over {len(INTERLEAVE_OPS)} operations containing a copy")
     n = 400 if quick else 20000
     campaign.parallel(rec, _shard_sm, [(seed * 1000 + i, n) for i in range(campaign.NCPU)])
     rec.notes["n_fixed_ops"] = len(FIXED_OPS)
@@ -345,7 +416,7 @@ def replay(case):
     ops = [tuple(o) for o in case["ops"]]
     for o in ops:
         if not o or o[0] not in {"idx", "idx_rel", "neg", "slice", "len", "iter", "partial", "bool", "in", "eq_list",
-                                 "eq_lazy", "count", "reversed", "copy", "has_ind", "listify"}:
+                                 "eq_lazy", "count", "reversed", "copy", "has_ind", "listify", "mkcopy", "c"}:
             return None
     r = run_history(xs, ops)
     return (r[0], r[1]) if r else None
